@@ -22,6 +22,8 @@ type defsLine struct {
 	Def        []string `json:"def"`
 	Verdict    string   `json:"verdict"`
 	VStrict    string   `json:"verdict_strict"`
+	VGroup     string   `json:"verdict_group"`        // the definition as the prefix of a group around the plain route "/a"
+	VGroupS    string   `json:"verdict_group_strict"`
 	Method     *string  `json:"method"`
 	Text       string   `json:"text"`
 	HandlerNil bool     `json:"handlernil"`
@@ -196,6 +198,56 @@ func defsRun(s *Summary, l defsLine) {
 				if lp != nil {
 					report("lookup-panic", fmt.Sprintf("%s was accepted; ServeHTTP(%q %q) panicked: %v (option set %d)", label, m, p, lp, oi))
 					break
+				}
+			}
+		}
+	}
+	// the definition as a group prefix: the route inside is plain, the joined path is what has to be judged
+	if l.Method == nil && l.VGroup != "" {
+		for oi, opts := range defsOptionSets()[:2] {
+			verdict := l.VGroup
+			if oi == 1 {
+				verdict = l.VGroupS
+			}
+			for style := 0; style < 3; style++ {
+				r := newRouter(opts...)
+				var pan any
+				func() {
+					defer func() { pan = recover() }()
+					switch style {
+					case 0:
+						r.Group(path, func() { r.GET("/a", nopHandler) })
+					case 1:
+						r.Group(path, func() { r.AddRoute(rux.NewRoute("/a", nopHandler, "GET")) })
+					default:
+						r.Group(path, func() { rux.NewNamedRoute("n", "/a", nopHandler, "GET").AttachTo(r) })
+					}
+				}()
+				compared++
+				glabel := fmt.Sprintf("Group(%q) { GET(\"/a\") } (style %d, option set %d)", path, style, oi)
+				switch {
+				case verdict == "reject" && pan == nil:
+					report("verdict", glabel+": the joined definition is invalid but registration accepted it")
+				case verdict == "accept" && pan != nil:
+					report("verdict", fmt.Sprintf("%s: the joined definition is inside the documented grammar but registration panicked: %v", glabel, pan))
+				}
+				if pan != nil {
+					continue
+				}
+				for _, m := range defsMethods[:3] {
+					for _, p := range defsPaths {
+						var lp any
+						func() {
+							defer func() { lp = recover() }()
+							r.Match(m, p)
+							r.Match(m, p+"/a")
+						}()
+						compared++
+						if lp != nil {
+							report("lookup-panic", fmt.Sprintf("%s was accepted; Match(%q, %q [+/a]) panicked: %v", glabel, m, p, lp))
+							break
+						}
+					}
 				}
 			}
 		}
